@@ -33,6 +33,29 @@ pub fn gen(seed: u64, thorough: bool) -> Plan {
         }
         // restarts close the environment under the readers' feet: not part of this scenario
         p.steps.retain(|s| !matches!(s, Step::Restart | Step::Upgrade { .. }));
+        // a quarter of the transactions end with a build that is cancelled at a random poll and are then
+        // aborted ("aborted at any point, including after a ... failed build"): the failed build is the last
+        // step of its transaction
+        let mut out: Vec<Step> = Vec::new();
+        let mut block: Vec<Step> = Vec::new();
+        for st in p.steps.drain(..) {
+            let end = matches!(st, Step::Commit | Step::Abort);
+            block.push(st);
+            if end {
+                if r.chance(1, 4) {
+                    if let Some(bi) = block.iter().rposition(|s| matches!(s, Step::Build { .. })) {
+                        if let Step::Build { fault, .. } = &mut block[bi] {
+                            *fault = crate::plan::Fault::CancelAt { n: r.below(150) };
+                        }
+                        block.truncate(bi + 1);
+                        block.push(Step::Abort);
+                    }
+                }
+                out.append(&mut block);
+            }
+        }
+        out.append(&mut block);
+        p.steps = out;
         p.cfg.pool = *r.pick(&[1usize, 2, 4]);
         p.cfg.map_size = 64 << 20;
         p.cfg.yield_every = *r.pick(&[1u64, 2, 8]);
